@@ -739,10 +739,11 @@ func genPre(r *simrt.Rand, ad *adapter, alpha int) []OpCall {
 	}
 	keep := r.Intn(7)
 	var pre []OpCall
+	order := r.Perm(n) // bstree: keys in a drawn order, so that the tree is bushy (nodes with two children), not a chain
 	for i := 0; i < n; i++ {
 		o := OpCall{Op: grow, A: 1 + r.Intn(alpha), B: 800 + i}
 		if ad.name == "bstree" {
-			o.A = 1 + i // distinct keys: a tree of n nodes
+			o.A = 1 + order[i] // distinct keys: a tree of n nodes
 		}
 		if ad.name == "cache" {
 			o.A = i // key k<i mod 8>; B%3 == 0 below keeps these entries free of expiry
